@@ -10,5 +10,9 @@ for p in $props; do
   python3 tools/check.py $p --tier quick > /tmp/verifcov/$p.log 2>&1; echo "$p rc=$?"
 done
 cd /tmp/verifcov
-gcovr --root /repo/src --filter '/repo/src/' --object-directory /verif/build $(ls -d /verif/build/h-*/ ) --json -o /tmp/verifcov/harness.json 2>/tmp/verifcov/gcovr.err
+rm -f /verif/build/*.gcov
+gcovr --root /repo/src --filter '/repo/src/' --gcov-ignore-parse-errors -j 8 $(for f in $(find /verif/build -name "*.gcda"); do dirname $f; done | sort -u) --json -o /tmp/verifcov/harness.json 2>/tmp/verifcov/gcovr.err
+rm -f /verif/build/*.gcov *.gcov
 gcovr --root /repo/src --add-tracefile /tmp/verifcov/harness.json --txt -o /tmp/verifcov/summary.txt
+# lines the repository's own suite executes (suite.json: the suite built with -DCOVERAGE=ON in a scratch worktree, gcovr --json) and the checks do not:
+# python3 - <<'PY' ... see DESIGN.md section 12
